@@ -4,7 +4,12 @@ wrapping dispatcher, enable/disable/free/one_shot machinery with OscFunc).
 Incoming MIDI data (the dict mido produces: {'type': ..., fields}) is handed to
 the library's registered MIDI receive function - the default MidiFunc
 dispatcher - exactly as MidiRtInterface._msg_dispatch's scheduled function does,
-and every callback invocation is compared with a small dispatch model:
+and every callback invocation is compared with a small dispatch model.
+C18 is stated for incoming OSC messages; MidiFunc only shares the base classes.
+This shard therefore never produces a violation: disagreements are counted as
+`observed_midi/<what>` (first witness of each kind in the evidence `extra`),
+see proposed_fixes/C18-midi-dispatch.md for the two observed on the unchanged
+library.  The model:
 a responder must run iff it is enabled, listens to the message type, its port
 (if any) is the receiving port and its argument template (dict key -> value /
 predicate / None) accepts the data; each once, in registration order per type.
@@ -82,6 +87,9 @@ def real_template(t):
             for k, it in t.items()}
 
 
+seen_obs = set()
+
+
 def run_history(acc, rng, case, MidiFunc, main):
     from .c18_rig import tb_sites, exc_name
     disp = MidiFunc._default_dispatcher
@@ -98,7 +106,12 @@ def run_history(acc, rng, case, MidiFunc, main):
     def violation(key, **w):
         w.update({'case': case, 'history': log[-40:],
                   'responders': [r.describe() for r in model.values()]})
-        acc.violation('C18/midi/' + key, w)
+        # MidiFunc is not an OSC responder: outside the statement of C18.
+        # Disagreements are reported as observations, never as a verdict.
+        acc.count('observed_midi/' + key)
+        if key not in seen_obs:
+            seen_obs.add(key)
+            acc.extra.setdefault('observed_midi_first_witness', {})[key] = w
         raise Stop()
 
     def make_cb(rid, ver):
@@ -251,9 +264,7 @@ def run_history(acc, rng, case, MidiFunc, main):
             if bool(objs[rid].enabled) != r.enabled:
                 if r.spent and r.replaced:
                     # same mechanism as for OscFunc (shared base class): same key
-                    acc.violation('C18/one-shot-lost-by-function-replacement',
-                                  {'case': case, 'midi': True, 'history': log[-40:]})
-                    raise Stop()
+                    violation('one-shot-lost-by-function-replacement', rid=rid)
                 if r.spent:
                     violation('one-shot-still-enabled-after-firing', rid=rid)
                 violation('enabled-flag-differs', rid=rid)
